@@ -352,6 +352,7 @@ func c01HumanValue(t *Tree) any {
 type c01Run struct {
 	tw      *CaseWriter // text-to-ast condition: tokens + the parser's AST (nil: not checked)
 	tokMax  int         // token budget per program for the text-to-ast condition
+	tokEvery int        // quick tier: every tokEvery-th program is checked (the corpus always)
 	sum     *Summary
 	cw      *CaseWriter
 	texts   map[string]bool
@@ -610,6 +611,10 @@ func (r *c01Run) textToAst(p *pgProgram, id int, text, term string, perr error, 
 	if r.tw == nil || unsupported != "" {
 		return
 	}
+	if r.tokEvery > 1 && id > 20 && id%r.tokEvery != 0 {
+		r.sum.Count("text_to_ast", "not sampled (quick tier checks every second program)")
+		return
+	}
 	var toks []parser2.VerifPTok
 	func() {
 		defer func() { recover() }()
@@ -657,7 +662,10 @@ func cmdC01(seed int64, tier, outDir string) {
 	cw.epilogue = "Definition c01_counts := Eval vm_compute in c01_stats cases.\nPrint c01_counts.\n"
 	tw := NewCaseWriter(filepath.Join(outDir, "text"), "From P2 Require Import Base.Prelude Sem.Num Sem.Syntax Run.C01TextRun.", "c01t_case", "c01t_id", "c01t_im", "c01t_is", 150)
 	tw.epilogue = "Definition c01t_counts := Eval vm_compute in c01t_stats cases.\nPrint c01t_counts.\n"
-	run := &c01Run{sum: sum, cw: cw, tw: tw, tokMax: 120, texts: map[string]bool{}}
+	run := &c01Run{sum: sum, cw: cw, tw: tw, tokMax: 120, tokEvery: 2, texts: map[string]bool{}}
+	if tier == "thorough" {
+		run.tokEvery = 1
+	}
 	finish := func() {
 		cw.Flush()
 		tw.Flush()
